@@ -28,7 +28,7 @@ ASSUMPTIONS = [
     "identity 'konsole' (supports both graphics styles) is used so that every class can be instantiated; identity "
     "'other' is used to observe forced_support through instantiation (StyleError iff not forced)",
 ]
-N_HIST = {"quick": 25, "thorough": 1500}
+N_HIST = {"quick": 25, "thorough": 3000}
 MIN_EVENTS = {"effective values compared": {"quick": 50000, "thorough": 500000}, "render methods observed": {"quick": 5000, "thorough": 50000}}
 SHARDS = 16
 DEFAULTS = {"method": "lines", "forced_support": False, "jpeg_quality": -1, "read_from_file": True}
